@@ -161,7 +161,7 @@ def main(argv=None):
             p = by_id[o["id"]]
             p["vcs"] += o["vcs"]
             p["seconds"] += o["seconds"]
-            order = {"refuted": 3, "unknown": 2, "proved": 1}
+            order = {"refuted": 3, "unknown": 2, "proved": 1, "bounded-ok": 0}
             if order[o["status"]] > order[p["status"]]:
                 p.update(status=o["status"], witness=o.get("witness"), reason=o.get("reason"))
         else:
@@ -190,9 +190,14 @@ def main(argv=None):
     known_lines = []
     discharged = 0
     under_exclusion = 0
+    bounded_ok = 0
     for o in obligations:
         if o["status"] == "proved":
             discharged += 1
+            continue
+        if o["status"] == "bounded-ok":
+            # DESIGN 2.8: an exhaustive small-scope run that found nothing is a bounded stand-in, never counted as proved
+            bounded_ok += 1
             continue
         if o["status"] == "unknown":
             if getattr(pack, "REPLAY_UNKNOWN", False):
@@ -256,8 +261,9 @@ def main(argv=None):
     evidence = {
         "property_id": prop, "tier": tier, "seed": seed, "level": "proof",
         "coverage": {
-            "obligations": len(obligations) - under_exclusion,
+            "obligations": len(obligations) - under_exclusion - bounded_ok,
             "discharged": discharged,
+            "bounded_standins_without_counterexample": bounded_ok,
             "obligations_failing_as_recorded_known_findings": under_exclusion,
             "obligations_generated_total": len(obligations),
             "checker_cmd": f"./check {prop} --tier {tier}",
@@ -297,7 +303,7 @@ def main(argv=None):
         print(f"ENGINE-ERROR property={prop} {e}")
     for m in really_missing:
         print(f"MISSING-OBLIGATION property={prop} {m} (locked but not generated: vacuity guard)")
-    print(f"{prop}: obligations={len(obligations)} discharged={discharged} under-exclusion={under_exclusion} "
+    print(f"{prop}: obligations={len(obligations)} discharged={discharged} bounded-only={bounded_ok} under-exclusion={under_exclusion} "
           f"refuted-new={len(new_violations)} undecided={len(undecided)} functions={len(fn_infos)} "
           f"solver={solver_seconds}s wall={wall:.1f}s exit={exit_code}")
     return exit_code
